@@ -129,7 +129,7 @@ class CounterInterp:
         if scope.qualname in _seen:
             return False
         _seen.add(scope.qualname)
-        g = build(scope, self.program)
+        g = build(scope, self.program, inline_methods=True)
         for n in g.nodes:
             if n.ast is None:
                 continue
@@ -224,7 +224,7 @@ class CounterInterp:
 
     # -- main ---------------------------------------------------------------
     def run(self, scope: Scope, st: State, depth: int = 0) -> List[Outcome]:
-        g = build(scope, self.program)
+        g = build(scope, self.program, inline_methods=True)
         outs: List[Outcome] = []
         self._walk(g, g.entry, st, {}, outs, depth)
         return outs
@@ -329,6 +329,12 @@ class CounterInterp:
                     s.v[name] = lv
                 else:
                     s.v.pop(name, None)
+                # boolean temporaries (`outermost = self._cnt == 0 or force`)
+                bv = self.eval_bool(v, s, g) if v is not None else None
+                if bv is not None:
+                    s.facts['B:' + n.meta['name']] = bv
+                else:
+                    s.facts.pop('B:' + n.meta['name'], None)
             return all_normal(s)
         if k == 'branch':
             return self._branch(g, n, st, normal)
@@ -340,18 +346,55 @@ class CounterInterp:
             # swap-out idiom `fd, self.FD = self.FD, None` is handled by the
             # following store_attr (value None)
             return all_normal(st)
+        if k == 'inline_enter':
+            self.call_states.setdefault(id(n.ast), []).append(st.copy())
         # everything else: no effect on the tracked state; exceptional edges
         # are followed with the same state
         out = all_normal(st)
         for e in exc:
-            out.append((e, st.copy()))
+            s3 = st.copy()
+            if n.meta.get('inlined_from'):
+                s3.facts['raised:' + n.meta['inlined_from'].rsplit('.', 1)[-1]] = True
+                s3.trace.append(f'{g.loc(n)} {n.meta["inlined_from"].rsplit(".", 1)[-1]}() raised {sorted(e.classes or [])}')
+            out.append((e, s3))
         return out
+
+    def eval_bool(self, e: ast.AST, st: State, g: CFG) -> Optional[bool]:
+        if isinstance(e, ast.Constant) and isinstance(e.value, bool):
+            return e.value
+        if isinstance(e, ast.Name):
+            if 'B:' + e.id in st.facts:
+                return st.facts['B:' + e.id]
+            return st.facts.get(e.id)
+        if isinstance(e, ast.UnaryOp) and isinstance(e.op, ast.Not):
+            v = self.eval_bool(e.operand, st, g)
+            return None if v is None else not v
+        if isinstance(e, ast.BoolOp):
+            vals = [self.eval_bool(v, st, g) for v in e.values]
+            if isinstance(e.op, ast.And):
+                if any(v is False for v in vals):
+                    return False
+                return True if all(v is True for v in vals) else None
+            if any(v is True for v in vals):
+                return True
+            return False if all(v is False for v in vals) else None
+        if isinstance(e, ast.Compare):
+            try:
+                return self.decide(e, st, g)
+            except _Split:
+                return None
+        if isinstance(e, ast.Attribute) and isinstance(e.value, ast.Name) and e.value.id == 'self' and e.attr in self.locked_props:
+            return st.locked
+        return None
 
     def _branch(self, g: CFG, n: Node, st: State, normal: List[Edge]) -> List[Tuple[Edge, State]]:
         t = n.meta['test']
         out: List[Tuple[Edge, State]] = []
         te = [e for e in normal if e.label == 'true']
         fe = [e for e in normal if e.label == 'false']
+        if isinstance(t, ast.Name) and 'B:' + t.id in st.facts:
+            val = st.facts['B:' + t.id]
+            return [(e, st.copy()) for e in (te if val else fe)]
         # self.<locked property> / self.FD is (not) None
         locked_test = None
         if isinstance(t, ast.Attribute) and isinstance(t.value, ast.Name) and t.value.id == 'self' \
